@@ -31,7 +31,7 @@ REQUIRED_COUNTERS = ["subprocess_runs", "inputs_compared", "distinct_probe_order
 ASSUMPTIONS = ["hash seeds and schedules are sampled, not enumerated", "polyphasegenetic is not driven: the repository ships no input on which it runs end to end (it aborts with `assert clustering` on tests/data)", "learn: single-contig inputs only"]
 WATCHDOG = {"quick": 900, "thorough": 2400}
 KINDS = ["phase", "phase_ped", "phase_quartet", "genotype", "haplotag", "polyphase", "compare", "stats", "unphase", "split",
-         "haplotagphase", "hapcut2vcf", "find_snv", "polyphase_allhet", "polyphase_prephased", "haplotag_ignore_rg", "learn", "learn_repo"]
+         "haplotagphase", "hapcut2vcf", "find_snv", "polyphase_allhet", "polyphase_prephased", "haplotag_ignore_rg", "learn", "learn_repo", "split_largest", "haplotag_bx"]
 
 
 def lanes(tier):
@@ -78,6 +78,7 @@ def build_input(kind, rng, tmp):
     seeds = ["0", "1", "2", "3", "random", "random"]
     variants = [("hs%s#%d" % (s, i), {"PYTHONHASHSEED": s}, []) for i, s in enumerate(seeds)]
     variants.append(("repeat", {"PYTHONHASHSEED": "0"}, []))
+    variants.append(("inproc2", {"PYTHONHASHSEED": "0", "WV_INPROC_REPEAT": "1"}, []))
     if kind in ("phase", "phase_ped", "phase_quartet", "genotype"):
         if kind == "phase":
             samples, ped = ["zeta", "alpha", "Mike", "b2"][: rng.randint(2, 4)], []
@@ -87,8 +88,18 @@ def build_input(kind, rng, tmp):
             samples, ped = ["papa", "mama", "kid", "x_loner"], [("papa", "mama", "kid")]
         p = {"n_chrom": 2, "chrom_len": 2500, "n_var": rng.randint(8, 16), "kinds": ["snv"], "samples": samples, "pedigree": ped,
              "depth": rng.choice([4, 8]) if kind != "phase_quartet" else 12, "read_len": (150, 600), "error_rate": 0.03, "het_prob": 0.8,
-             "qual_mode": "const", "recomb_prob": 0.05}
+             "qual_mode": "const", "recomb_prob": 0.05, "with_pl": kind != "genotype"}
+        if ped and kind != "genotype":
+            # genotype calls that contradict the reads (weak likelihoods): --distrust-genotypes then changes several family members,
+            # often at one position, and lists the changes
+            p["gt_noise"] = (0.3, 0.0)
+            p["depth"] = 12
         sim = genome.simulate(rng, tmp, p)
+        if kind != "genotype" and rng.random() < 0.6:
+            # INFO keys whatshap knows how to declare (AC, AN, END, SVLEN, SVTYPE) used without being declared in the header
+            for r in sim.doc.records:
+                r["info"] = ";".join(rng.sample(["AC=1", "AN=2", "SVLEN=1", "SVTYPE=X"], rng.randint(2, 4)))
+            sim.doc.write(sim.vcf)
         if ped and kind != "genotype" and rng.random() < 0.5:
             # nothing to phase on the first contig: every genotype homozygous reference there
             for r in sim.doc.records:
@@ -109,13 +120,71 @@ def build_input(kind, rng, tmp):
             outs = [out, rl]
             if ped:
                 rc = os.path.join(outdir, "recomb.tsv")
-                args += ["--ped", sim.ped, "--use-ped-samples", "--recombination-list", rc]
-                outs.append(rc)
+                gl = os.path.join(outdir, "gtchanges.tsv")
+                args += ["--ped", sim.ped, "--use-ped-samples", "--recombination-list", rc, "--distrust-genotypes", "--changed-genotype-list", gl]
+                outs += [rc, gl]
                 if kind == "phase_quartet":
                     args += ["--internal-downsampling", "15"]
             return args, outs
 
         return make, samples, variants
+    if kind == "split_largest":
+        # split --only-largest-block on a list in which two phase sets of a chromosome tie for the most tagged reads
+        import pysam
+
+        p = {"n_chrom": 2, "chrom_len": 2500, "n_var": 8, "kinds": ["snv"], "samples": ["zeta"], "depth": 6, "read_len": (200, 700), "error_rate": 0.0, "het_prob": 0.9}
+        sim = genome.simulate(rng, tmp, p)
+        lst = os.path.join(tmp, "tags.tsv")
+        with pysam.AlignmentFile(sim.bams[0]) as f, open(lst, "w") as out:
+            out.write("#readname\thaplotype\tphaseset\tchromosome\n")
+            per = {}
+            for a in f:
+                per.setdefault(a.reference_name, [])
+                if a.query_name not in per[a.reference_name]:
+                    per[a.reference_name].append(a.query_name)
+            for c, names in per.items():
+                sets = [str(x) for x in rng.sample(range(100, 5000), rng.choice([2, 3]))]
+                k = max(1, len(names) // (len(sets) + 1))
+                for i, nm in enumerate(names):
+                    j = i // k
+                    if j < len(sets):  # the same number of tagged reads in every phase set: a tie for the largest block
+                        out.write("%s\tH%d\t%s\t%s\n" % (nm, 1 + i % 2, sets[j], c))
+                    else:
+                        out.write("%s\tnone\tnone\t%s\n" % (nm, c))
+
+        def make(outdir):
+            h1, h2, un = (os.path.join(outdir, n) for n in ("h1.bam", "h2.bam", "un.bam"))
+            hist = os.path.join(outdir, "hist.tsv")
+            return ["split", "--only-largest-block", "--output-h1", h1, "--output-h2", h2, "--output-untagged", un, "--read-lengths-histogram", hist, sim.bams[0], lst], [h1, h2, un, hist]
+
+        return make, ["zeta", "alpha", "chr1", "chr2"], variants
+    if kind == "haplotag_bx":
+        # linked reads: many barcodes whose cloud consists of one read on each of two phase sets with the same evidence,
+        # so that the cloud's phase set is decided by a tie-break
+        import pysam
+
+        p = {"n_chrom": 1, "chrom_len": 4000, "n_var": 16, "kinds": ["snv"], "samples": ["zeta"], "depth": 8, "read_len": (150, 350), "error_rate": 0.0, "het_prob": 1.0}
+        sim = genome.simulate(rng, tmp, p)
+        doc, blocks = genome.truth_phased_doc(sim, rng, tag="PS", block_len=(2, 4))
+        vcf = os.path.join(tmp, "phased.vcf.gz")
+        doc.write(vcf, compress=True)
+        src = pysam.AlignmentFile(sim.bams[0])
+        hdr = src.header.to_dict()
+        recs = list(src)
+        src.close()
+        bam = os.path.join(tmp, "bx.bam")
+        with pysam.AlignmentFile(bam, "wb", header=hdr) as out:
+            for i, a in enumerate(recs):
+                a.set_tag("BX", "BC%02d" % (i % max(2, len(recs) // 3)))
+                out.write(a)
+        pysam.index(bam)
+
+        def make(outdir):
+            out = os.path.join(outdir, "out.bam")
+            lst = os.path.join(outdir, "list.tsv")
+            return ["haplotag", "--reference", sim.fasta, "-o", out, "--output-haplotag-list", lst, vcf, bam], [out, lst]
+
+        return make, ["zeta", "alpha", "b", "c"], variants
     if kind in ("haplotag", "haplotagphase", "split", "haplotag_ignore_rg"):
         samples = ["zeta", "alpha"]
         p = {"n_chrom": 2, "chrom_len": 2500, "n_var": 12, "kinds": ["snv"], "samples": samples, "depth": 6, "read_len": (200, 700),
@@ -208,14 +277,21 @@ def build_input(kind, rng, tmp):
         d1, _ = genome.truth_phased_doc(sim, rng, tag="PS", block_len=(2, 7), interleave=True)
         d2, _ = genome.truth_phased_doc(sim, rng, tag="PS", block_len=(3, 9))
         d2.samples = ["other"]
-        f1, f2 = os.path.join(tmp, "a.vcf"), os.path.join(tmp, "b.vcf")
+        d3, _ = genome.truth_phased_doc(sim, rng, tag="PS", block_len=(2, 5))
+        d3.samples = ["NA_third"]
+        f1, f2, f3 = os.path.join(tmp, "a.vcf"), os.path.join(tmp, "b.vcf"), os.path.join(tmp, "c.vcf")
         d1.write(f1)
         d2.write(f2)
+        d3.write(f3)
+        three = rng.random() < 0.5
 
         def make(outdir):
             if kind == "compare":
-                outs = [os.path.join(outdir, n) for n in ("pair.tsv", "longest.tsv", "sw.bed")]
-                return ["compare", "--ignore-sample-name", "--tsv-pairwise", outs[0], "--longest-block-tsv", outs[1], "--switch-error-bed", outs[2], f1, f2], outs
+                if not three:
+                    outs = [os.path.join(outdir, n) for n in ("pair.tsv", "longest.tsv", "sw.bed")]
+                    return ["compare", "--ignore-sample-name", "--tsv-pairwise", outs[0], "--longest-block-tsv", outs[1], "--switch-error-bed", outs[2], f1, f2], outs
+                outs = [os.path.join(outdir, n) for n in ("pair.tsv", "multi.tsv", "sw.bed")]
+                return ["compare", "--ignore-sample-name", "--tsv-pairwise", outs[0], "--tsv-multiway", outs[1], "--switch-error-bed", outs[2], f1, f2, f3], outs
             if kind == "stats":
                 outs = [os.path.join(outdir, n) for n in ("stats.tsv", "blocks.tsv", "blocks.gtf")]
                 return ["stats", "--tsv", outs[0], "--block-list", outs[1], "--gtf", outs[2], f1], outs
